@@ -57,7 +57,7 @@ AFF_CFG = {
 
 
 def law_holds(law, e):
-    """LawHolds of AffineLaws.tla evaluated on (real) results."""
+    """LawHolds of AffineLaws.tla / AffineScaled.tla evaluated on (real) results."""
     if law == "unit":
         return e["l"] == e["m"] and e["r"] == e["m"]
     if law == "assoc":
@@ -65,7 +65,8 @@ def law_holds(law, e):
     if law == "compose":
         return e["x"] == e["y"] and e["nx"] == e["ny"]
     if law == "translate":
-        return e["t"] == e["t2"] and e["x"] == e["y"] and e["o1"] == e["o2"]
+        return (e["t"] == e["t2"] and e["o1"] == e["o2"] and ("x" not in e or e["x"] == e["y"])
+                and ("back" not in e or e["back"] == e["m"]))
     if law == "norm":
         return e["n"] == (e["a"][0] - e["o"][0], e["a"][1] - e["o"][1])
     if law == "rect":
@@ -102,6 +103,98 @@ def run_prog(law, inputs):
     for fn, x, y, out in PROGS[law]:
         e[out] = tuple(HELPERS[fn](e[x], e[y]))
     return e
+
+
+# ------------------------------------------------------------------------------------------ helpers at every magnitude
+SCALED_SPEC = os.path.join(SPECS, "geom", "MC_AffineScaled.tla")
+PROGS_S = dict(PROGS)
+PROGS_S["translate"] = [("translate", "m", "v", "t"), ("mult", "T", "m", "t2"), ("pt", "t", "O", "o1"), ("pt", "m", "v", "o2"),
+                        ("translate", "t", "nv", "back")]
+INPUTS_S = dict(INPUTS)
+INPUTS_S["translate"] = ["m", "v", "nv", "T", "O"]
+SCALED_CFG = {"quick": {"Mats": "GenS", "MatsFew": "FewS", "MatsOne": "OneS"},
+              "thorough": {"Mats": "GenS", "MatsFew": "FewS", "MatsOne": "FewS"}}
+MAGNITUDE = Fraction(10 ** 6)          # the value the formal magnitude symbol T of AffineScaled.tla is realised with
+
+
+def num_value(c, t=MAGNITUDE):
+    """7 coefficients for T^-3 .. T^3 -> exact Fraction"""
+    return sum((Fraction(x) * t ** (i - 3) for i, x in enumerate(c) if x), Fraction(0))
+
+
+def scaled_tlc(ck, workers):
+    cfgc = {"Laws": "<- AllLaws", "Pts": "<- PtsS", "Rects": "<- RectsS", "Scales": "<- Mags"}
+    cfgc.update({k: "<- " + v for k, v in SCALED_CFG[ck.tier].items()})
+    cfg = write_cfg(os.path.join(ck.tmp, "c20_scaled.cfg"), constants=cfgc,
+                    invariants=["MatchesRef", "LawHolds", "CoeffsSmall", "PlainAgrees"], constraints=["EmitTerminal"])
+    emit = os.path.join(ck.tmp, "c20_scaled.ndjson")
+    return run_tlc(SCALED_SPEC, cfg, emit=emit, coverage=(ck.tier == "quick"), timeout=7200, workers=workers), emit
+
+
+def scaled_replay(ck, res, emit):
+    """every law instance of AffineScaled.tla on the real helpers, the magnitude symbol realised as the exact fraction
+    10^6: components between 10^-18 and 10^18, tiny and huge ones next to ordinary ones"""
+    ck.add_tlc(res, "AffineScaled: every law instance over the generator matrices x magnitudes 10^-6, 1, 10^6")
+    if not res.ok:
+        st = res.error_trace[-1][1] if res.error_trace else {}
+        ck.violation("model:" + str(res.violated), "TLC: %s violated on the helpers transcribed over magnitudes (law %s)"
+                     % (res.violated, st.get("law", "?")), {"tlc": res.error_text[:4000]})
+        return
+    if res.actions:
+        require_coverage(res, AFF_ACTIONS)
+    counts = {}
+    n = drift = tiny = huge = 0
+    per_law = {}
+    with open(emit) as f:
+        for line in f:
+            r = json.loads(line)
+            law = r["law"]
+            spec = {k: tuple(num_value(c) for c in v) for k, v in r["env"].items()}
+            if set(spec) != set(INPUTS_S[law]) | {p[3] for p in PROGS_S[law]}:
+                raise MachineryError("harness program table out of step with AffineScaled.Prog for law %s" % law)
+            n += 1
+            per_law[law] = per_law.get(law, 0) + 1
+            inputs = {k: spec[k] for k in INPUTS_S[law]}
+            outs = [o for _, _, _, o in PROGS_S[law]]
+            vals = [abs(x) for o in outs for x in spec[o] if x]
+            tiny += any(x < Fraction(1, 10 ** 9) for x in vals)
+            huge += any(x > 10 ** 9 for x in vals)
+            shown = {k: tuple(str(x) for x in v) for k, v in inputs.items()}
+            for mode in ("frac", "mixed"):          # mixed: integral values as int, the way PDF numbers arrive
+                ins = inputs if mode == "frac" else {k: tuple(int(x) if x.denominator == 1 else x for x in v) for k, v in inputs.items()}
+                try:
+                    real = dict(ins)
+                    for fn, x, y, out in PROGS_S[law]:
+                        real[out] = tuple(HELPERS[fn](real[x], real[y]))
+                except Exception as ex:
+                    capped(ck, counts, "affine:exception:" + type(ex).__name__, "helper raised %r (law %s at magnitudes, %s)" % (ex, law, mode),
+                           {"law": law, "scaled_inputs": shown, "mode": mode})
+                    continue
+                ck.case(1, ("affS", law, tuple(sorted(shown.items()))) if mode == "frac" else None)
+                if not law_holds(law, real):
+                    bad = [o for o in outs if real[o] != spec[o]]
+                    capped(ck, counts, "affine:" + law, "law '%s' fails on the real helpers where components are tiny or huge: inputs %r "
+                           "(values differing from the specification: %s, e.g. %s = %r, specification %r)"
+                           % (law, shown, bad, bad[0] if bad else "-", tuple(str(x) for x in real[bad[0]]) if bad else "-",
+                              tuple(str(x) for x in spec[bad[0]]) if bad else "-"),
+                           {"law": law, "scaled_inputs": shown, "mode": mode})
+                elif any(real[o] != spec[o] for o in outs):
+                    drift += 1
+                    if drift <= 5:
+                        ck.note("model/code drift at magnitudes (law %s holds on the real values but they differ from the specification's): %r"
+                                % (law, shown))
+            if per_law[law] == 3:
+                ck.sample({"law": law, "magnitude_symbol_T": "10^6", "inputs": shown,
+                           "real_values": {o: tuple(str(x) for x in real[o]) for o in outs[:3]}}, limit=16)
+    os.remove(emit)
+    if n != res.emitted or n == 0:
+        raise MachineryError("emitted %d terminal states but replayed %d" % (res.emitted, n))
+    if not tiny or not huge:
+        raise MachineryError("vacuous magnitude run: %d instances with a component below 1e-9, %d above 1e9" % (tiny, huge))
+    ck.replayed += n
+    ck.extra["affine_scaled"] = {"cases_per_law": per_law, "instances_with_component_below_1e-9": tiny,
+                                 "instances_with_component_above_1e9": huge, "model_code_drift": drift,
+                                 "property_failures_by_key": counts}
 
 
 def capped(ck, counts, key, what, replay):
@@ -747,8 +840,9 @@ def run(ck):
     runs = PLANE_RUNS[ck.tier]
     ncpu = os.cpu_count() or 4
     w_big, w_small = max(2, ncpu * 3 // 8), max(2, ncpu // 4)
-    with ThreadPoolExecutor(4) as ex:        # the TLC runs of direction A go side by side; replays happen here, in order
+    with ThreadPoolExecutor(5) as ex:        # the TLC runs of direction A go side by side; replays happen here, in order
         f_aff = ex.submit(affine_tlc, ck, w_big)
+        f_sc = ex.submit(scaled_tlc, ck, w_small)
         f_pl = [ex.submit(plane_tlc, ck, dev, r, w_big if r[0].startswith("Seq") else w_small) for r in runs]
         f_ref = ex.submit(refutations_tlc, ck, dev)
         recorded = record_b(ck, dev)          # recording runs the real code in this process meanwhile
@@ -758,6 +852,10 @@ def run(ck):
         t1 = time.time()
         affine_replay(ck, res, emit)
         phases["helpers_A_replay"] = round(time.time() - t1, 1)
+        res, emit = f_sc.result()
+        t1 = time.time()
+        scaled_replay(ck, res, emit)
+        phases["helpers_scaled_replay"] = round(time.time() - t1, 1)
         done = [(r, f.result()) for r, f in zip(runs, f_pl)]
         phases["plane_A_tlc_done_at"] = round(time.time() - t0, 1)
         t1 = time.time()
@@ -789,6 +887,18 @@ def replay(path):
             ok = len(set(got)) == len(got) and set(got) <= set(ref["may"][i]) and set(ref["must"][i]) <= set(got)
             print("find(%r) -> %r   may %r must %r  %s" % (su["qs"][i], got, ref["may"][i], ref["must"][i], "ok" if ok else "BAD"))
             bad |= not ok
+    elif "law" in case and "scaled_inputs" in case:
+        law = case["law"]
+        ins = {k: tuple(Fraction(x) for x in v) for k, v in case["scaled_inputs"].items()}
+        if case.get("mode") == "mixed":
+            ins = {k: tuple(int(x) if x.denominator == 1 else x for x in v) for k, v in ins.items()}
+        real = dict(ins)
+        for fn, x, y, out in PROGS_S[law]:
+            real[out] = tuple(HELPERS[fn](real[x], real[y]))
+        for k, v in real.items():
+            print("%-4s = %s" % (k, tuple(str(x) for x in v)))
+        bad = not law_holds(law, real)
+        print("law %s %s" % (law, "FAILS" if bad else "holds"))
     elif "law" in case:
         law = case["law"]
         inputs = {k: tuple(v) for k, v in case["inputs"].items()}
